@@ -28,10 +28,13 @@ structure FateOp where
   myKey : Option String
   ev : Option Event
   sel : List String
+  localIA : List Nat
+  localDQ : List Nat
 
-def parseFate (ws : List String) : Option FateOp :=
+def parseFate13 (ws : List String) : Option FateOp :=
   match ws with
-  | ["fate", me, n, honest, step, start, mykey, evkey, misb, order, sel] => do
+  | ["fate", me, n, honest, step, start, mykey, evkey, misb, order, sel, ia, dq] => do
+    let ia ← parseNats ia; let dq ← parseNats dq
     let me ← me.toNat?; let n ← n.toNat?; let honest ← honest.toNat?
     let step ← step.toNat?; let start ← start.toNat?
     let misb ← parseNats misb
@@ -39,14 +42,19 @@ def parseFate (ws : List String) : Option FateOp :=
     if order ≠ "e" ∧ order ≠ "t" then none else
     let ev : Option Event :=
       if evkey = "-" ∨ order = "t" then none else some ⟨evkey, misb.map (· % 256)⟩
-    pure ⟨me, n, honest, step, start, if mykey = "nil" then none else some mykey, ev, splitList sel⟩
+    pure ⟨me, n, honest, step, start, if mykey = "nil" then none else some mykey, ev, splitList sel,
+          ia.map (· % 256), dq.map (· % 256)⟩
   | _ => none
+
+/-- the 11-token form (no local view) means a fresh group -/
+def parseFate (ws : List String) : Option FateOp :=
+  parseFate13 (if ws.length = 11 ∧ ws.head? = some "fate" then ws ++ ["-", "-"] else ws)
 
 def model (line : String) : String :=
   let ws := splitWs line
   match parseFate ws with
   | some o =>
-    s!"T={timeoutBlock o.start o.n o.step} " ++ showRes (fateThenOperators o.me o.n o.honest o.myKey o.ev o.sel)
+    s!"T={timeoutBlock o.start o.n o.step} " ++ showRes (fateThenOperatorsG o.me o.n o.honest o.myKey o.ev o.sel o.localIA o.localDQ)
   | none =>
     match ws with
     | ["resolve", n, honest, sel, ids] =>
